@@ -10,7 +10,8 @@
     denotes instant [n].  Location and monotonic reading are not part of the model (they are not
     transmitted).  A [*vivid.Error] is (code, text); its wrapped cause is documented as not serialised.
     User code enters through the Section variables: the Codec ([has_codec] = a non-nil Codec is
-    configured, [cenc], [cdec]) and the error-code registry ([qerr] = QueryError). *)
+    configured, [cenc], [cdec]), the error-code registry ([qerr] = QueryError) and the ActorRef factory
+    ([newref] = actor.NewRef, which normalises and validates an (address, path) pair). *)
 From Coq Require Import List NArith ZArith Lia Bool String.
 From stdpp Require Import gmap.
 From Vivid Require Import Codec.Prim Codec.MsgPrim Cluster.VV Codec.ClusterMsgs.
